@@ -840,13 +840,24 @@ func tableRowsIdx(v ssa.Value, index *ssa.Value) (*ssa.Alloc, int, []ssa.Value) 
 	case *ssa.IndexAddr:
 		ia = x
 	case *ssa.Alloc:
-		// the range variable: one copy of the element per iteration
-		src := soleStoreAny(x)
-		el, isLd := src.(*ssa.UnOp)
-		if !isLd || el.Op != token.MUL {
-			return nil, 0, nil
+		// the range variable: one copy of the element per iteration (possibly handed on to a by-value parameter of an
+		// expanded helper: a copy of the copy)
+		cur := x
+		for d := 0; d < 4 && ia == nil; d++ {
+			src := soleStoreAny(cur)
+			el, isLd := stripConv(src).(*ssa.UnOp)
+			if !isLd || el.Op != token.MUL {
+				return nil, 0, nil
+			}
+			switch y := el.X.(type) {
+			case *ssa.IndexAddr:
+				ia = y
+			case *ssa.Alloc:
+				cur = y
+			default:
+				return nil, 0, nil
+			}
 		}
-		ia, _ = el.X.(*ssa.IndexAddr)
 	}
 	if ia == nil {
 		return nil, 0, nil
@@ -862,6 +873,22 @@ func tableRowsIdx(v ssa.Value, index *ssa.Value) (*ssa.Alloc, int, []ssa.Value) 
 	}
 	if arr == nil {
 		return nil, 0, nil
+	}
+	// the array ranged over may be a copy of the variable that holds the literal (the result variable of an expansion)
+	for d := 0; d < 3; d++ {
+		src := soleStoreAny(arr)
+		if src == nil {
+			break
+		}
+		ld2, isLd := stripConv(src).(*ssa.UnOp)
+		if !isLd || ld2.Op != token.MUL {
+			break
+		}
+		a2, isA := ld2.X.(*ssa.Alloc)
+		if !isA {
+			break
+		}
+		arr = a2
 	}
 	at, ok := derefType(arr.Type()).Underlying().(*types.Array)
 	if !ok || !rangeIndexCovers(ia.Index, at.Len()) {
